@@ -283,6 +283,9 @@ def run_purity_case(rng, cls, n, gates_kind):
     gates = {"noise_free": NoiseFreeGates, "counting": CountingGates, "noisy": Gates,
              "scaled": lambda: ScaledNoiseGates(noise_scaling=0.5)}[gates_kind]()
     dp = numeric_params(rng, nlabels - 1)
+    if gates_kind in ("noise_free", "counting") and rng.random() < 0.6:
+        # calibration tables with exact zeros (e.g. two-qubit values filled for the native direction only): still only read
+        dp = W.numeric_params_with_zeros(rng, nlabels - 1)
     psi0 = np.array([rng.gauss(0, 1) + 1j * rng.gauss(0, 1) for _ in range(2 ** n)])
     psi0 /= np.linalg.norm(psi0)
     layout = list(range(nlabels))
@@ -340,6 +343,34 @@ def run_purity_case(rng, cls, n, gates_kind):
             return ops2, [f"the simulator object is not reusable: after a run it serves a second circuit of the same sizes measuring {new_q} "
                           f"instead of {[m[1] for m in meas]} and returns {dict(list(c.items())[:4])}; a new simulator returns {dict(list(d.items())[:4])}"]
     return ops, fails
+
+
+def direct_eval_case(rng, cls, n):
+    """a circuit object built directly (no simulator) with the noise-free gate set, at least two gate times, evaluated with a
+    contiguous complex128 initial state: the state array is untouched (bytes), the result is another array, and a second
+    evaluation returns the same vector.  n up to 9 (the high-qubit regimes of the backends).  Returns failure text or None."""
+    from quantum_gates._gates.gates import NoiseFreeGates
+    circ = W.circuit_class(cls)(n, 6, NoiseFreeGates())
+    for layer in range(rng.randint(2, 3)):
+        for q in range(n):
+            (circ.X if rng.random() < 0.5 else circ.SX)(q, 0.0, 0.0, 0.0)
+    psi0 = np.ascontiguousarray(np.array([rng.gauss(0, 1) + 1j * rng.gauss(0, 1) for _ in range(2 ** n)], dtype=np.complex128))
+    keep = psi0.copy()
+    try:
+        with contextlib.redirect_stdout(io.StringIO()):
+            r1 = circ.statevector(psi0)
+            same_obj = r1 is psi0
+            r1 = np.array(r1, copy=True)
+            r2 = np.array(circ.statevector(psi0), copy=True)
+    except Exception as e:                      # noqa
+        return f"{cls} circuit on {n} qubits built directly: statevector raised {type(e).__name__}: {str(e)[:100]}"
+    if psi0.tobytes() != keep.tobytes():
+        return f"{cls} circuit on {n} qubits built directly (complex128 contiguous psi0): statevector() modified the initial state it was given"
+    if same_obj:
+        return f"{cls} circuit on {n} qubits built directly: statevector() returned the caller's psi0 array itself"
+    if r1.tobytes() != r2.tobytes():
+        return f"{cls} circuit on {n} qubits built directly: statevector() called twice in a row gives different arrays"
+    return None
 
 
 def reuse_numeric_case(rng, cls, n):
@@ -485,6 +516,12 @@ def main(ctx):
             d.append(f"{len(snaps)} snapshots vs model {len(msn)}")
         if d:
             mism.append((cls, n, depth, hist, d))
+    # circuit objects built directly on 7..9 qubits (high-qubit regimes of the backends)
+    for cls in ("standard", "efficient", "one", "binary"):
+        for nn in ((7, 8, 9) if ctx.thorough else (8,)):
+            b = direct_eval_case(ctx.rng, cls, nn); ctx.count()
+            if b:
+                fails.append((cls, nn, None, ["direct evaluation"], b))
     # numeric oracles on the real pipeline
     numeric = 0
     for cls in CLASSES:
